@@ -365,7 +365,7 @@ fn strat() -> BoxedStrategy<Case> {
   (0u8..=28)
     .prop_flat_map(|d| {
       let maxdl = (29 - d).min(14);
-      let dl = prop_oneof![12 => 1u8..=maxdl.min(3), 4 => 1u8..=maxdl.min(6), 1 => 1u8..=maxdl, 1 => Just(29 - d).prop_map(move |x| x.min(14).max(1))];
+      let dl = prop_oneof![48 => 1u8..=maxdl.min(3), 16 => 1u8..=maxdl.min(6), 4 => 1u8..=maxdl.min(10), 1 => 1u8..=maxdl, 3 => Just(29 - d).prop_map(move |x| x.min(10).max(1)), 1 => Just(29 - d).prop_map(move |x| x.min(14).max(1))];
       (gens::cell(d), dl).prop_map(move |(cell, delta)| Case { depth: d, cell, delta })
     })
     .boxed()
@@ -384,7 +384,7 @@ pub fn run(ctx: &Ctx, rep: &mut Report) {
     }
   }
   let f = if ctx.profile == "release" { 1 } else { 4 };
-  ctx.run_random(rep, "sampled", strat, ctx.tier.pick(40_000, 2_000_000) / f, check);
+  ctx.run_random(rep, "sampled", strat, ctx.tier.pick(40_000, 1_000_000) / f, check);
   ctx.run_random(rep, "depth_plus_delta_29", strat_deep, ctx.tier.pick(4_000, 200_000) / f, check);
   ctx.run_random(rep, "large_delta_corners", strat_large_delta, ctx.tier.pick(300_000, 10_000_000) / f, check_corners);
 }
